@@ -649,15 +649,19 @@ Section UnfuseGeneric.
     - intros (K & T & e & q & Hin & He & Hq & Hp). exists (K, T). split; [exact Hin|].
       unfold gpieces. cbn [fst]. rewrite He. apply in_map_iff. exists q. split; [now symmetry|exact Hq].
   Qed.
-  (* ---- coordinate semantics of the unfused array ---- *)
+  (* ---- coordinate semantics of the unfused array ----
+     IXr is a reference index list with respect to which the block shapes are
+     stated: the indices of Y themselves, or the same tables before charges that
+     no block uses were pruned away *)
+  Context (IXr : list (index G)).
   Context (Hshape : forall K T, In (K, T) (blocks G R Y) ->
-             length K = length (indices G R Y) /\ tshape T = block_shape G (indices G R Y) K).
+             length K = length IXr /\ tshape T = block_shape G IXr K).
   Context (Hext_sz : forall ch e ss st len, lookup (ceqb G) ch ext = Some e -> In (ss, (st, len)) (ranges_from 0 e) ->
-             shape_size (block_shape G subs ss) = len /\ st + len <= size_of G (nth ax (indices G R Y) dflt) ch).
+             shape_size (block_shape G subs ss) = len /\ st + len <= size_of G (nth ax IXr dflt) ch).
 
-  Notation IX := (indices G R Y).
-  Definition GIX' : list (index G) := replace_with_seq (indices G R Y) ax subs.
-  Definition GY' : aarray G R := mkA G R GIX' (charge G R Y) GUB.
+  Notation IX := IXr.
+  Definition GIX' : list (index G) := replace_with_seq IXr ax subs.
+  Definition GY' : aarray G R := mkA G R (replace_with_seq (indices G R Y) ax subs) (charge G R Y) GUB.
 
   Lemma Hkq0 : eqb_spec_on keq.
   Proof. apply (Hke G GL). Qed.
